@@ -165,10 +165,10 @@ def check_c16(prop, tier, seed):
         jobs.append(dict(src=("gen", random_gen_params(rng, i + seed * 1000), "rand%d" % i)))
     # one generator object reused: the last scenario of a sequence of benchmark parameter sets (other seeds / sizes)
     from harness.checks_gen import bench_params
-    seqn = 8 if tier == "quick" else 60
+    seqn = 30 if tier == "quick" else 200
     for i in range(seqn):
-        names_ = ["small-gen", "medium-gen", "small-gen-rgoal", "small-gen"]
-        seq = [bench_params(names_[(i + j) % 4], seed + 3 * i + j) for j in range(3)]
+        names_ = ["small-gen", "medium-gen", "small-gen-rgoal", "small-gen", "medium-gen"]
+        seq = [bench_params(names_[(i + j) % 5], seed + 5 * i + j) for j in range(4)]
         jobs.append(dict(src=("gen_seq", seq, "reuse%d" % i)))
     for n in corpus.names():
         jobs.append(dict(src=("corpus_dict", n), crosscheck=True))
